@@ -99,6 +99,9 @@ func (in *Interp) constVal(c *ssa.Const) Value {
 			return concreteStr(constant.StringVal(c.Value))
 		case b.Info()&types.IsFloat != 0:
 			f, _ := constant.Float64Val(c.Value)
+			if b.Kind() == types.Float32 {
+				return Float{F: float64(float32(f)), Is32: true}
+			}
 			return Float{F: f}
 		}
 	}
@@ -718,16 +721,20 @@ func (in *Interp) binop(op token.Token, xt types.Type, x, y Value) Value {
 	case Float:
 		b := y.(Float)
 		if a.T != nil || b.T != nil {
-			at, bt := floatTerm(a), floatTerm(b)
+			fw := -64
+			if (a.T != nil && a.T.W == -32) || (b.T != nil && b.T.W == -32) {
+				fw = -32
+			}
+			at, bt := floatTermW(a, fw), floatTermW(b, fw)
 			switch op {
 			case token.MUL:
-				return Float{T: mk("fp.mul", -64, at, bt)}
+				return Float{T: mk("fp.mul", fw, at, bt)}
 			case token.ADD:
-				return Float{T: mk("fp.add", -64, at, bt)}
+				return Float{T: mk("fp.add", fw, at, bt)}
 			case token.SUB:
-				return Float{T: mk("fp.sub", -64, at, bt)}
+				return Float{T: mk("fp.sub", fw, at, bt)}
 			case token.QUO:
-				return Float{T: mk("fp.div", -64, at, bt)}
+				return Float{T: mk("fp.div", fw, at, bt)}
 			case token.LSS:
 				return mk("fp.lt", 0, at, bt)
 			case token.LEQ:
@@ -740,6 +747,19 @@ func (in *Interp) binop(op token.Token, xt types.Type, x, y Value) Value {
 				return mk("fp.eq", 0, at, bt)
 			}
 			in.fail("symbolic float op %v", op)
+		}
+		if a.Is32 || b.Is32 {
+			x, y := float32(a.F), float32(b.F)
+			switch op {
+			case token.ADD:
+				return Float{F: float64(x + y), Is32: true}
+			case token.SUB:
+				return Float{F: float64(x - y), Is32: true}
+			case token.MUL:
+				return Float{F: float64(x * y), Is32: true}
+			case token.QUO:
+				return Float{F: float64(x / y), Is32: true}
+			}
 		}
 		switch op {
 		case token.ADD:
@@ -1055,6 +1075,17 @@ func (fr *frame) tryMerge(c *Term) bool {
 	return true
 }
 
+
+// floatTermW gives the term of f in the float format fw (-32 / -64); concrete values become literals.
+func floatTermW(f Float, fw int) *Term {
+	if f.T != nil {
+		return f.T
+	}
+	if fw == -32 {
+		return FPConst32(math.Float32bits(float32(f.F)))
+	}
+	return FPConst(math.Float64bits(f.F))
+}
 
 func floatTerm(f Float) *Term {
 	if f.T != nil {
